@@ -143,7 +143,7 @@ impl<'a, 'b> SearchGen<'a, 'b> {
                 break;
             }
             self.goals_left -= 1;
-            let mut w = [8u32, 0, 0, 0, 0, 0];
+            let mut w = [8u32, 0, 0, 0, 0, 0, 2];
             if depth < self.cfg.max_depth {
                 w[1] = 5; // disjunction
                 w[2] = 1; // nested conjunction
@@ -164,7 +164,11 @@ impl<'a, 'b> SearchGen<'a, 'b> {
                     let mut clauses = vec![];
                     for _ in 0..k {
                         let mut sc = scope.clone();
-                        clauses.push(self.goals(&mut sc, depth + 1, 1));
+                        if self.s.flag(14) {
+                            clauses.push(vec![]); // the empty clause `[]`
+                        } else {
+                            clauses.push(self.goals(&mut sc, depth + 1, 1));
+                        }
                     }
                     out.push(Goal::Conde(clauses));
                 }
@@ -191,6 +195,11 @@ impl<'a, 'b> SearchGen<'a, 'b> {
                     let mut sc = scope.clone();
                     let b = self.goals(&mut sc, depth + 1, 1);
                     out.push(Goal::Closure(b));
+                }
+                6 => {
+                    // literal `true` / `false` leaves: goals that are folded statically
+                    // (Conj::new, Stream::bind) and streams that are mature at once
+                    out.push(if self.s.flag(150) { Goal::Succeed } else { Goal::Fail });
                 }
                 _ => out.push(self.call(scope)),
             }
@@ -223,7 +232,16 @@ pub enum BranchKind {
 /// A branch goal over the query variable `q` together with its kind.
 pub fn gen_branch(s: &mut Source, q: VarId, marker: i64, next_var: &mut VarId) -> (Vec<Goal>, BranchKind) {
     let qv = Term::Var(q);
-    match s.weighted(&[4, 2, 2, 2, 2, 2, 1, 1, 1]) {
+    match s.weighted(&[4, 2, 2, 2, 2, 2, 1, 1, 1, 1, 1, 1]) {
+        // depth-first blocks as branches of an interleaving disjunction
+        9 => (vec![Goal::Dfs(vec![Goal::Call(Rel::Diverge, vec![])])], BranchKind::Diverger),
+        10 => (vec![Goal::Dfs(vec![Goal::Call(Rel::Member, vec![qv, Term::ints(&[marker, marker + 100])])])], BranchKind::Finite),
+        11 => {
+            // a diverger that recurses only through fresh / closure (no conde, no Delay)
+            let v = *next_var;
+            *next_var += 1;
+            (vec![Goal::Fresh(vec![v], vec![Goal::Closure(vec![Goal::Call(Rel::Diverge, vec![])])])], BranchKind::Diverger)
+        }
         0 => (vec![Goal::Eq(qv, Term::Int(marker))], BranchKind::Finite),
         1 => (
             vec![Goal::Call(Rel::Member, vec![qv, Term::ints(&[marker, marker + 100])])],
